@@ -38,12 +38,44 @@ META = {
                 needs="a pedigree with a selfed individual, update target = the selfing parent", caught_by="C18 quick: ped_gibbs_not_full_conditional (143 runs), detailed_balance_ped_mh (73)", strengthened=None),
  "C18-m2": dict(property="C18", breaks="generic_markov_blanket_log_probability reads gamete_error[i, 0] for parent q: the swap move's acceptance is not the MH ratio of the joint",
                 needs="different error rates on the two parental edges of an individual in the pair's blanket", caught_by="C18 quick: detailed_balance_ped_swap (259 runs)", strengthened=None),
- "C02-m1": dict(property="C02"), "C02-m2": dict(property="C02"),
+ "C02-m1": dict(property="C02", breaks="call llk cache key bit-packed with 64 // ploidy bits per allele: different genotypes collide once n_haplotypes > 2**(64 // ploidy); gibbs/mh pick up another genotype's likelihood",
+                needs="cache on (always in CallingMCMC.fit), high ploidy with many haplotypes (ploidy 10 & > 64 haplotypes, ploidy 12 & > 32, ploidy 32 & > 4) and a colliding genotype visited earlier in the chain",
+                caught_by="C02 quick: gibbs_not_full_conditional, detailed_balance_call_mh (26 of 6000 runs); C09 quick: cached_value_wrong",
+                strengthened="rare large call shapes added (ploidy 8-32, 20-72 haplotypes; ~1.5% of runs); C09's cache audits made key-agnostic (they decoded keys as VCF indices and crashed on this change)"),
+ "C02-m2": dict(property="C02", breaks="mh_options drops prior and proposal ratio when inbreeding == 0 ('they cancel'): the allele-frequency factor is lost, MH no longer targets the posterior under skewed frequencies",
+                needs="Metropolis-Hastings step type, inbreeding exactly 0 and a skewed prior frequency vector", caught_by="C02 quick: detailed_balance_call_mh (510 of 6000 runs)", strengthened=None),
+ "C01-n1": dict(property="C01", breaks="interval_step tempers the proposal ratio: (llk + prior + proposal) * temp", needs="heated chain and a state whose forward / return option counts differ (duplicated segments, ploidy >= 3)",
+                caught_by="C01 quick: detailed_balance_structural (428 of 1500 runs)", strengthened=None),
+ "C01-n2": dict(property="C01", breaks="_denovo_assembler no longer passes inbreeding to chain_swap_step: exchange acceptance uses the non-inbred prior",
+                needs="inbreeding > 0, a heated chain and two chain states with different dosage partitions", caught_by="C01 quick: detailed_balance_exchange (404 of 1500 runs)", strengthened=None),
+ "C09-n1": dict(property="C09", breaks="pedigree gibbs_probabilities slices reads[0:n_obs] instead of masking read_counts > 0: likelihood cached under (sample, genotype) is computed on the wrong reads",
+                needs="a sample with a zero-count read in front of a positive-count read (non-tail padding), Gibbs step type", caught_by="C09 quick: cached_value_wrong (229 of 4000 runs)",
+                strengthened="pedigree instances now interleave zero-count rows with real reads (padding used to sit only at the tail)"),
+ "C09-n2": dict(property="C09", breaks="_denovo_assembler 'tidy-up': the local llk written to the cold-chain trace is not updated by an accepted exchange",
+                needs="two or more temperatures and an accepted cold-chain exchange in that step", caught_by="C09 quick: trace_llk_mismatch (646 of 4000 runs); C01 also", strengthened=None),
+ "C10-n1": dict(property="C10", breaks="encode_sample_reads caches extracted reads per BAM path: every later sample from a multi-sample BAM silently gets the first sample's reads",
+                needs="one BAM holding several samples (several @RG with different SM)", caught_by="C10 quick: sample_column_depends_on_other_samples (85 of 320 batches)", strengthened=None),
+ "C10-n2": dict(property="C10", breaks="call-exact pairs inbreeding coefficients with samples by position (zip over dict values)",
+                needs="call-exact with an --inbreeding FILE holding different values whose line order differs from the run's sample order, or a superset file",
+                caught_by="C10 quick: sample_column_depends_on_other_samples (34 of 320 batches)", strengthened="--inbreeding (constant or per-sample file in tape-shuffled line order, superset of each run's samples) added to the C10 swarm"),
+ "C14-n1": dict(property="C14", breaks="GenotypeMultiTrace.posterior() memoised in self._posterior and burn() built with copy(self): a burnt trace reports its parent's posterior",
+                needs="posterior() called on a trace object before burn(), or burn -> posterior -> burn chains", caught_by="C14 quick: posterior_mismatch (852 of 4000 runs)",
+                strengthened="call histories on trace objects (direct burn(n), incremental burn(1) chains, summaries of the parent first) are now tape-chosen; before, every summary came from a fresh trace.burn(n)"),
+ "C14-n2": dict(property="C14", breaks="_posterior_frequencies' per-allele 'last seen' stamp is the within-chain step index: occurrence is under-counted across chains",
+                needs="multi-chain trace with an allele present at step s of chain c, absent until step s of chain c+1", caught_by="C14 quick: allele_frequency_mismatch (1304 of 4000 runs)", strengthened=None),
+ "C15-n1": dict(property="C15", breaks="the homozygosity screen is skipped when fix_homozygous >= 1.0: sites whose single-SNV posterior is exactly 1.0 are no longer fixed at a threshold of exactly 1.0",
+                needs="--mcmc-fix-homozygous 1.0 and deep clean reads (posterior saturates to 1.0 in float64)", caught_by="C15 quick: fixed_sites (13 of 6000 runs)",
+                strengthened="saturated posteriors (every other genotype < 3e-20) are now decided at threshold 1.0 instead of being skipped as 'within 1e-9 of the threshold'; deeper read sets added"),
+ "C15-n2": dict(property="C15", breaks="random_breaks' guard relaxed from breaks >= n to n < 1: for breaks >= n it returns trailing empty [0, 0] intervals instead of refusing",
+                needs="more breaks than SNVs (n_intervals mode with most sites fixed)", caught_by="C15 quick: intervals_not_partition (406 of 6000 runs)",
+                strengthened="random_breaks is now also driven with breaks >= n: accepted outcomes are a ValueError or a true partition"),
 }
 def main():
     for name in sys.argv[1:]:
         pid, m = name.split("-")
         src = "/tmp/seed/%s.out/%s" % (pid, m)
+        if not os.path.isdir(src):
+            print("missing", src); continue
         dst = "/verif/seeded/%s" % name
         os.makedirs(dst, exist_ok=True)
         for f in ("patch.diff", "demo.py", "README.md"):
